@@ -1194,9 +1194,14 @@ func (s *UtxoStore) GetBindingHistoryDetail(tx mwdb.ReadTransaction, addrMgr *ke
 	return ret, nil
 }
 
-func (s *UtxoStore) ExistCreditFromTx(rtx mwdb.ReadTransaction, hash *wire.Hash) bool {
+func (s *UtxoStore) ExistCreditFromTx(rtx mwdb.ReadTransaction, hash *wire.Hash) (bool, error) {
 	nsCredits := rtx.FetchBucket(s.bucketMeta.nsCredits)
 	iter := nsCredits.NewIterator(mwdb.BytesPrefix(hash[:]))
 	defer iter.Release()
-	return iter.Next()
+	if iter.Next() {
+		return true, nil
+	}
+	// "no credit" and "could not look" must not be confused: the caller
+	// skips the input when there is no credit
+	return false, iter.Error()
 }
